@@ -826,6 +826,10 @@ impl Inner {
         let id = frame.stream_id();
         let promised_id = frame.promised_id();
 
+        // Set when the initiating stream has been reset locally and is only
+        // remembered to absorb frames that raced with our RST_STREAM.
+        let mut parent_is_reset = false;
+
         // First, ensure that the initiating stream is still in a valid state.
         let parent_key = match self.store.find_mut(&id) {
             Some(stream) => {
@@ -840,8 +844,13 @@ impl Inner {
                     return Ok(());
                 }
 
-                // The stream must be receive open
-                if !stream.state.ensure_recv_open()? {
+                if stream.state.is_local_error() {
+                    // The PUSH_PROMISE raced with our own RST_STREAM of the
+                    // associated stream. That is not an error of the peer and
+                    // the stored (possibly user initiated) reset must not be
+                    // surfaced as one: validate the promise and refuse it below.
+                    parent_is_reset = true;
+                } else if !stream.state.ensure_recv_open()? {
                     proto_err!(conn: "recv_push_promise: initiating stream is not opened");
                     return Err(Error::library_go_away(Reason::PROTOCOL_ERROR));
                 }
@@ -872,6 +881,11 @@ impl Inner {
             .is_none()
         {
             return Ok(());
+        }
+
+        if parent_is_reset {
+            // Nobody can receive the pushed response any more: cancel it.
+            return Err(Error::library_reset(promised_id, Reason::CANCEL));
         }
 
         // Try to handle the frame and create a corresponding key for the pushed stream
